@@ -160,7 +160,7 @@ Ltac fin := cbn [v_st w_st v_spec w_spec w_pods v_pods w_pg v_pg set_st set_wpod
 Lemma sync_job_outcome : forall w u F w' e wr,
   sync_job w u F = (w', e, wr) -> outcome (v_spec w) KSync u w w' e wr.
 Proof.
-  intros w u F w' e wr H. unfold sync_job in H.
+  intros w u F w' e wr H. unfold sync_job, sync_job_gen in H.
   remember (phase_beq (st_phase (v_st w)) PhNone) as init eqn:Hinit.
   assert (Hph : init = true -> st_phase (v_st w) = PhNone).
   { intros ->. symmetry in Hinit. apply phase_beq_true in Hinit. exact Hinit. }
@@ -186,8 +186,8 @@ Proof.
       { inversion H; subst; clear H. constructor; fin; auto; try discriminate.
         intros _ _; split; auto. rewrite Heq; exact Hm. }
       destruct (fails_status F 1).
-      { inversion H; subst; clear H. constructor; fin; auto; try discriminate.
-        rewrite apply_upd_version; auto. }
+      { inversion H; subst; clear H. constructor; fin; auto; try discriminate;
+        try (rewrite apply_upd_version; auto). }
       inversion H; subst; clear H. constructor; fin; auto; try discriminate.
       rewrite apply_upd_version; auto.
     + assert (Hm : moved (v_spec w) u (v_st w) (apply_upd u (v_spec w) js)).
@@ -196,8 +196,8 @@ Proof.
       { inversion H; subst; clear H. constructor; fin; auto; try discriminate.
         intros _ _; split; auto. rewrite <- Heq; exact Hm. }
       destruct (fails_status F 1).
-      { inversion H; subst; clear H. constructor; fin; auto; try discriminate.
-        rewrite apply_upd_version; auto. }
+      { inversion H; subst; clear H. constructor; fin; auto; try discriminate;
+        try (rewrite apply_upd_version; auto). }
       inversion H; subst; clear H. constructor; fin; auto; try discriminate.
       rewrite apply_upd_version; auto.
   - (* the job already has a phase *)
@@ -623,6 +623,31 @@ Proof. vm_compute. repeat split. Qed.
 Example sync_counters_fixed_on_witness :
   exists w', step_req oos_world sync_req [] = (w', false, true) /\ partition_ok (w_st w') (w_pods w') = true.
 Proof. eexists. split; vm_compute; reflexivity. Qed.
+
+(* the PRE-FIX syncJob (before "fix: initJobStatus returns a copy ...") kept the
+   unwritten status in the job cache when the final UpdateStatus of a first sync
+   failed; the next sync saw no change and never corrected the API server *)
+Definition leak_world : world :=
+  init_world one_task_spec (mkStatus PhNone 0 0 0 c0 0 [] true false)
+    [mkPod 1 0 PRunning false false] (Some PgRunning).
+Theorem cache_status_leak_prefix_refuted :
+  exists w1 w2,
+    sync_job_prefix leak_world UPendingSync [FStatus 1] = (w1, true, true) /\
+    v_pods w1 = w_pods w1 /\ v_st w1 <> w_st w1 /\
+    sync_job_prefix w1 URunningSync [] = (w2, false, false) /\
+    partition_ok (w_st w2) (w_pods w2) = false /\ st_cnt (w_st w2) = c0 /\ length (w_pods w2) = 1%nat.
+Proof.
+  eexists. eexists. split; [vm_compute; reflexivity|]. split; [reflexivity|]. split; [discriminate|].
+  split; [vm_compute; reflexivity|]. repeat split.
+Qed.
+Example cache_status_leak_fixed_on_witness :
+  exists w1 w2,
+    sync_job leak_world UPendingSync [FStatus 1] = (w1, true, true) /\ v_st w1 = w_st w1 /\
+    step_req w1 sync_req [] = (w2, false, true) /\ partition_ok (w_st w2) (w_pods w2) = true.
+Proof.
+  eexists. eexists. split; [vm_compute; reflexivity|]. split; [reflexivity|].
+  split; vm_compute; reflexivity.
+Qed.
 
 (* ---------- non-vacuity ---------- *)
 Example final_inv_nonvacuous :
